@@ -8,6 +8,7 @@
 From Coq Require Import String.
 From Coq Require Import List NArith Bool.
 From Wpull Require Import Lib.Decimal Lib.FsModel Model.Journal Proofs.JournalProofs.
+From Wpull Require Import Spec.WarcReader Proofs.WarcReaderProofs.
 Import ListNotations.
 Open Scope N_scope.
 
@@ -104,6 +105,121 @@ Theorem C06_unlink_fault_state :
 Proof. exact unlink_fault_state. Qed.
 Print Assumptions C06_unlink_fault_state.
 
+(* ================= "valid record sequence" = the strict WARC/1.0 reader of Spec/WarcReader.v ===========
+   [warc_valid c]: c parses completely as a sequence of WARC/1.0 records (version line, token-named
+   fields one per CRLF line, mandatory fields once, Content-Length digits, block completely present,
+   CRLF CRLF) - [warc_gz_valid gunzip1 c]: c is a sequence of gzip members each inflating to exactly
+   one such record.  The reader is front-local, so a valid archive followed by a valid record is valid: *)
+Theorem C06_reader_front_local :
+  forall c rec r y, read_record c = Some (rec, r) -> read_record (c ++ y) = Some (rec, r ++ y).
+Proof. exact read_record_local. Qed.
+Print Assumptions C06_reader_front_local.
+
+(* Process death at ANY primitive (with or without an earlier I/O error), plain archive: the archive is a
+   valid record sequence, or a complete journal naming the pre-append length is present and truncating
+   to that length gives back exactly the old content, which is a valid record sequence. *)
+Theorem C06_crash_recoverable_warc :
+  forall (s : fs) (A : name) (chunks : list bytes) (flt crash : option interrupt) (s' : fs),
+    warc_valid (content s A) = true ->
+    warc_valid (concat chunks) = true ->
+    write_record A chunks flt crash s = Crashed s' ->
+    warc_valid (content s' A) = true
+    \/ (lookup s' (journal_name A) <> None
+        /\ parse_journal (content s' (journal_name A)) = Some (size s A)
+        /\ truncate_to (size s A) (content s' A) = content s A
+        /\ warc_valid (truncate_to (size s A) (content s' A)) = true).
+Proof. exact (crash_valid warc_valid warc_valid_app). Qed.
+Print Assumptions C06_crash_recoverable_warc.
+
+(* the same for compressed archives, validity per gzip member, for every member decoder that is
+   self-delimiting (hypothesis sampled against the real zlib by the harness) *)
+Theorem C06_crash_recoverable_warc_gz :
+  forall (gunzip1 : bytes -> option (bytes * bytes)),
+    (forall c p r y, gunzip1 c = Some (p, r) -> gunzip1 (c ++ y) = Some (p, r ++ y)) ->
+  forall (s : fs) (A : name) (chunks : list bytes) (flt crash : option interrupt) (s' : fs),
+    warc_gz_valid gunzip1 (content s A) = true ->
+    warc_gz_valid gunzip1 (concat chunks) = true ->
+    write_record A chunks flt crash s = Crashed s' ->
+    warc_gz_valid gunzip1 (content s' A) = true
+    \/ (lookup s' (journal_name A) <> None
+        /\ parse_journal (content s' (journal_name A)) = Some (size s A)
+        /\ truncate_to (size s A) (content s' A) = content s A
+        /\ warc_gz_valid gunzip1 (truncate_to (size s A) (content s' A)) = true).
+Proof. intros g H. exact (crash_valid (warc_gz_valid g) (warc_gz_valid_app g H)). Qed.
+Print Assumptions C06_crash_recoverable_warc_gz.
+
+(* ================= histories: any number of appends, each with a fault at an arbitrary point ========= *)
+(* one attempt under ANY fault plan (position beyond the last primitive = no fault) ends Completed or
+   Raised; the archive is old or old+record as [survives] says; other files untouched; journal gone
+   unless the unlink itself failed without effect ([clean]) *)
+Theorem C06_append_outcome :
+  forall (s : fs) (A : name) (chunks : list bytes) (flt : option interrupt),
+    exists s', (write_record A chunks flt None s = Completed s' \/ write_record A chunks flt None s = Raised s')
+      /\ content s' A = (if survives (chunks, flt) then content s A ++ concat chunks else content s A)
+      /\ (forall g, g <> A -> g <> journal_name A -> lookup s' g = lookup s g)
+      /\ (clean (chunks, flt) = true -> lookup s' (journal_name A) = None).
+Proof. exact append_outcome. Qed.
+Print Assumptions C06_append_outcome.
+
+(* induction over the history: the archive is the old archive followed by exactly the records of the
+   attempts that did not fail, in order - whatever failed in between left no trace *)
+Theorem C06_history_content :
+  forall (A : name) (h : list attempt) (s : fs),
+    content (run_history A h s) A = content s A ++ kept h
+    /\ forall g, g <> A -> g <> journal_name A -> lookup (run_history A h s) g = lookup s g.
+Proof. exact history_content. Qed.
+Print Assumptions C06_history_content.
+
+Theorem C06_history_no_journal :
+  forall (A : name) (h : list attempt) (s : fs),
+    lookup s (journal_name A) = None ->
+    Forall (fun e => clean e = true) h ->
+    lookup (run_history A h s) (journal_name A) = None.
+Proof. exact history_journal. Qed.
+Print Assumptions C06_history_no_journal.
+
+(* a whole run on a plain archive: any history of attempts with faults, then the process dies at any
+   primitive of a further append (itself possibly after a fault) *)
+Theorem C06_history_then_crash_warc :
+  forall (A : name) (h : list attempt) (chunks : list bytes) (flt crash : option interrupt) (s s' : fs),
+    warc_valid (content s A) = true ->
+    Forall (fun e => warc_valid (data_of e) = true) h ->
+    warc_valid (concat chunks) = true ->
+    write_record A chunks flt crash (run_history A h s) = Crashed s' ->
+    warc_valid (content s' A) = true
+    \/ (lookup s' (journal_name A) <> None
+        /\ parse_journal (content s' (journal_name A)) = Some (size (run_history A h s) A)
+        /\ truncate_to (size (run_history A h s) A) (content s' A) = content s A ++ kept h
+        /\ warc_valid (truncate_to (size (run_history A h s) A) (content s' A)) = true).
+Proof. exact (history_then_crash warc_valid warc_valid_app warc_valid_nil). Qed.
+Print Assumptions C06_history_then_crash_warc.
+
+Theorem C06_history_then_crash_warc_gz :
+  forall (gunzip1 : bytes -> option (bytes * bytes)),
+    (forall c p r y, gunzip1 c = Some (p, r) -> gunzip1 (c ++ y) = Some (p, r ++ y)) ->
+  forall (A : name) (h : list attempt) (chunks : list bytes) (flt crash : option interrupt) (s s' : fs),
+    warc_gz_valid gunzip1 (content s A) = true ->
+    Forall (fun e => warc_gz_valid gunzip1 (data_of e) = true) h ->
+    warc_gz_valid gunzip1 (concat chunks) = true ->
+    write_record A chunks flt crash (run_history A h s) = Crashed s' ->
+    warc_gz_valid gunzip1 (content s' A) = true
+    \/ (lookup s' (journal_name A) <> None
+        /\ parse_journal (content s' (journal_name A)) = Some (size (run_history A h s) A)
+        /\ truncate_to (size (run_history A h s) A) (content s' A) = content s A ++ kept h
+        /\ warc_gz_valid gunzip1 (truncate_to (size (run_history A h s) A) (content s' A)) = true).
+Proof. intros g H. exact (history_then_crash (warc_gz_valid g) (warc_gz_valid_app g H) (eq_refl : warc_gz_valid g [] = true)). Qed.
+Print Assumptions C06_history_then_crash_warc_gz.
+
+(* the constructor of a new run (check first, only then truncate / warcinfo append): while the journal
+   of ANY file the prefix can name exists it raises and leaves the directory exactly as it was -
+   for every prefix string, every option combination, every adversary *)
+Theorem C06_init_refuses :
+  forall prefix sized0 meta seq compress0 sized compress appending info flt crash s,
+    lookup s (journal_name (warc_filename prefix sized0 meta seq compress0)) <> None ->
+    recorder_init prefix sized compress appending info flt crash s = (StartRefused, Raised s).
+Proof. exact init_refuses. Qed.
+Print Assumptions C06_init_refuses.
+
 (* ---- non-vacuity: a directory with a three-"record" archive and another file ---- *)
 Definition ex_A : name := warc_filename (str "out/a[1]"%string) true false 3 true.
 Definition ex_fs : fs := [(str "other.cdx"%string, [1; 2; 3]); (ex_A, [10; 11; 12; 20; 21; 30])].
@@ -136,4 +252,72 @@ Proof. eexists. vm_compute. repeat split. Qed.
 Example C06_refuses_nonvacuous :
   new_recorder_check (str "out/a[1]"%string) ((journal_name ex_A, []) :: ex_fs) = StartRefused
   /\ new_recorder_check (str "out/a[1]"%string) ex_fs = StartOk.
+Proof. vm_compute. split; reflexivity. Qed.
+
+(* ---- non-vacuity with real WARC syntax ---- *)
+Definition crlf : bytes := [13; 10].
+Definition mk_rec (ty id body : string) (len : string) : bytes :=
+  str "WARC/1.0"%string ++ crlf ++ str "WARC-Type: "%string ++ str ty ++ crlf
+  ++ str "WARC-Record-ID: <urn:uuid:"%string ++ str id ++ str ">"%string ++ crlf
+  ++ str "WARC-Date: 2020-01-01T00:00:00Z"%string ++ crlf
+  ++ str "content-length:  "%string ++ str len ++ crlf ++ crlf ++ str body ++ crlf ++ crlf.
+Definition rec1 := mk_rec "warcinfo" "1" "abc" "3".
+Definition rec2 := mk_rec "resource" "2" "" "0".
+Definition rec3 := mk_rec "response" "3" "hello world" "11".
+Definition wx_A : name := warc_filename (str "w"%string) false false 0 false.
+Definition wx_fs : fs := [(wx_A, rec1 ++ rec2)].
+Definition wx_chunks : list bytes := [firstn 30 rec3; skipn 30 rec3].
+
+(* the reader accepts exactly complete sequences; it is strict about every part *)
+Example C06_reader_nonvacuous :
+  parse_plain (rec1 ++ rec2 ++ rec3) <> None
+  /\ length (match parse_plain (rec1 ++ rec2 ++ rec3) with Some l => l | None => [] end) = 3%nat
+  /\ warc_valid (rec1 ++ firstn 100 rec3) = false           (* cut inside a record *)
+  /\ warc_valid (rec1 ++ [13; 10]) = false                  (* junk after the last record *)
+  /\ warc_valid (mk_rec "resource" "4" "abc" "4") = false    (* Content-Length too large *)
+  /\ warc_valid (mk_rec "resource" "4" "abc" "2") = false    (* Content-Length too small *)
+  /\ warc_valid (repeat 0 50) = false.                      (* NUL padding *)
+Proof. vm_compute. repeat split; discriminate. Qed.
+
+(* hypotheses of C06_crash_recoverable_warc hold; the kill comes inside the second write; the archive
+   is then NOT valid, the journal names 232 and truncation gives the two old records back *)
+Example C06_crash_warc_nonvacuous :
+  warc_valid (content wx_fs wx_A) = true
+  /\ warc_valid (concat wx_chunks) = true
+  /\ exists s', write_record wx_A wx_chunks None (Some (Intr 5 false (firstn 40 (skipn 30 rec3)))) wx_fs = Crashed s'
+       /\ warc_valid (content s' wx_A) = false
+       /\ parse_journal (content s' (journal_name wx_A)) = Some (size wx_fs wx_A)
+       /\ truncate_to (size wx_fs wx_A) (content s' wx_A) = rec1 ++ rec2.
+Proof. split; [vm_compute; reflexivity|split; [vm_compute; reflexivity|]]. eexists. vm_compute. repeat split. Qed.
+
+(* compressed archives: the self-delimiting hypothesis is satisfiable together with a valid archive *)
+Definition toy_member (r : bytes) : bytes := N.of_nat (length r) :: r.
+Example C06_crash_warc_gz_nonvacuous :
+  (forall c p r y, toy_gunzip c = Some (p, r) -> toy_gunzip (c ++ y) = Some (p, r ++ y))
+  /\ warc_gz_valid toy_gunzip (toy_member rec1 ++ toy_member rec2) = true
+  /\ warc_gz_valid toy_gunzip (toy_member rec3) = true
+  /\ warc_gz_valid toy_gunzip (toy_member (rec1 ++ rec2)) = false      (* two records in one member *)
+  /\ warc_gz_valid toy_gunzip (toy_member rec1 ++ firstn 20 (toy_member rec3)) = false.
+Proof. split; [exact toy_gunzip_local|]. vm_compute. repeat split. Qed.
+
+(* a history: fault inside a write (junk written), success, fault at the archive open, error of the
+   unlink itself, success - the archive holds exactly the survivors, in order *)
+Definition wx_hist : list attempt :=
+  [ ([firstn 30 rec3; skipn 30 rec3], Some (Intr 5 false [1; 2; 3]));
+    ([rec3], None);
+    ([rec2], Some (Intr 3 true []));
+    ([firstn 10 rec2; skipn 10 rec2], Some (Intr 7 false []));
+    ([rec1], None) ].
+Example C06_history_nonvacuous :
+  Forall (fun e => warc_valid (data_of e) = true) wx_hist
+  /\ map survives wx_hist = [false; true; false; true; true]
+  /\ content (run_history wx_A wx_hist wx_fs) wx_A = (rec1 ++ rec2) ++ rec3 ++ rec2 ++ rec1
+  /\ lookup (run_history wx_A wx_hist wx_fs) (journal_name wx_A) = None
+  /\ warc_valid (content (run_history wx_A wx_hist wx_fs) wx_A) = true.
+Proof. split; [repeat constructor|]. vm_compute. repeat split. Qed.
+
+Example C06_init_refuses_nonvacuous :
+  recorder_init (str "out/a[1]"%string) false true false [[1; 2]] None None ((journal_name ex_A, []) :: ex_fs)
+    = (StartRefused, Raised ((journal_name ex_A, []) :: ex_fs))
+  /\ fst (recorder_init (str "out/a[1]"%string) false true false [[1; 2]] None None ex_fs) = StartOk.
 Proof. vm_compute. split; reflexivity. Qed.
